@@ -212,7 +212,11 @@ def run(tier, seed, replay=None):
     ok, traces, hdr = K.random_family(ctx, PID, "line4", "handshake", range(base, base + n), 220 if tier == "quick" else 500,
                                       NONTRIVIAL)
     if ok:
-        K.trace_control(ctx, "trace in which the originator's hop list names another peer is rejected", traces, "line4", hdr,
+        with_hop = [t for t in traces if any(c["hops"] for e in t["events"] for c in e["post"]["circ"].get("o", []))]
+        if not with_hop:      # every handshake of these seeds was spoilt: take an undisturbed run for the control
+            t0, w0 = R.random_run("line4", base, "honest", 80)
+            with_hop, hdr = [t0], w0.header()
+        K.trace_control(ctx, "trace in which the originator's hop list names another peer is rejected", with_hop, "line4", hdr,
                         _swap_hop)
     scr, hdr2 = [], None
     combos = [(3, h, how, False) for h in (1, 2, 3) for how in HOWS]
